@@ -26,6 +26,9 @@ from typing import Dict, List, Optional, Set, Tuple
 REFERENCE: Set[str] = set((Path(__file__).parent / "reference_funcs.txt").read_text().split())
 
 
+REFERENCE_NAMES: Set[str] = set((Path(__file__).parent / "reference_names.txt").read_text().split())
+
+
 class Unsupported(Exception):
     pass
 
@@ -789,12 +792,110 @@ def referenced_elsewhere(trees: Dict[str, ast.Module], modname: str, name: str) 
     return False
 
 
+def _literal(e: ast.AST) -> bool:
+    if isinstance(e, ast.Constant):
+        return isinstance(e.value, (str, int, float, bytes, bool)) or e.value is None
+    if isinstance(e, ast.Tuple):
+        return all(_literal(x) for x in e.elts)
+    if isinstance(e, ast.UnaryOp) and isinstance(e.op, ast.USub):
+        return _literal(e.operand)
+    return False
+
+
+RE_METHODS = {"sub", "subn", "finditer", "findall", "match", "search", "fullmatch", "split"}
+
+
+def propagate_extra_constants(modname: str, tree: ast.Module) -> List[str]:
+    """module-level names that are not names of the reference tree and are bound once to a literal or to
+    `re.compile(<literal>[, flags])` are replaced by their value where they are used (`_RE.sub(r, t)` -> `re.sub(<literal>, r, t)`)"""
+    log: List[str] = []
+    cands: Dict[str, ast.AST] = {}
+    counts: Dict[str, int] = {}
+    for s in tree.body:
+        for n in ast.walk(s):
+            if isinstance(n, ast.Name) and isinstance(n.ctx, (ast.Store, ast.Del)):
+                counts[n.id] = counts.get(n.id, 0) + 1
+    for n in ast.walk(tree):
+        if isinstance(n, (ast.Global, ast.Nonlocal)):
+            for nm in n.names:
+                counts[nm] = counts.get(nm, 0) + 2
+    for s in tree.body:
+        tgt = val = None
+        if isinstance(s, ast.Assign) and len(s.targets) == 1 and isinstance(s.targets[0], ast.Name):
+            tgt, val = s.targets[0].id, s.value
+        elif isinstance(s, ast.AnnAssign) and isinstance(s.target, ast.Name) and s.value is not None:
+            tgt, val = s.target.id, s.value
+        if tgt is None or f"{modname}.{tgt}" in REFERENCE_NAMES or counts.get(tgt, 0) != 1:
+            continue
+        if _literal(val):
+            cands[tgt] = val
+        elif isinstance(val, ast.Call) and isinstance(val.func, ast.Attribute) and isinstance(val.func.value, ast.Name) and val.func.value.id == "re" \
+                and val.func.attr == "compile" and val.args and _literal(val.args[0]) and all(_simple(a) for a in val.args[1:]) \
+                and all(k.arg == "flags" and _simple(k.value) for k in val.keywords):
+            cands[tgt] = val
+    if not cands:
+        return log
+    # a function parameter / local of the same name shadows the constant: skip such functions
+    class T(ast.NodeTransformer):
+        def __init__(self):
+            self.shadow: List[Set[str]] = []
+
+        def _fn(self, node):
+            bound = {a.arg for a in node.args.args + node.args.kwonlyargs + node.args.posonlyargs}
+            if node.args.vararg:
+                bound.add(node.args.vararg.arg)
+            if node.args.kwarg:
+                bound.add(node.args.kwarg.arg)
+            bound |= {n.id for n in ast.walk(node) if isinstance(n, ast.Name) and isinstance(n.ctx, ast.Store)}
+            self.shadow.append(bound)
+            self.generic_visit(node)
+            self.shadow.pop()
+            return node
+
+        visit_FunctionDef = visit_AsyncFunctionDef = visit_Lambda = _fn
+
+        def shadowed(self, name):
+            return any(name in b for b in self.shadow)
+
+        def visit_Call(self, node: ast.Call):
+            f = node.func
+            if isinstance(f, ast.Attribute) and isinstance(f.value, ast.Name) and f.value.id in cands and not self.shadowed(f.value.id) \
+                    and isinstance(cands[f.value.id], ast.Call) and f.attr in RE_METHODS and self.shadow:
+                comp = cands[f.value.id]
+                pat = copy.deepcopy(comp.args[0])
+                flags = comp.args[1] if len(comp.args) > 1 else next((k.value for k in comp.keywords if k.arg == "flags"), None)
+                # pattern methods take pos/endpos for some calls: only the plain forms are rewritten
+                plain = {"sub": (2, 3), "subn": (2, 3), "finditer": (1, 1), "findall": (1, 1), "match": (1, 1), "search": (1, 1), "fullmatch": (1, 1), "split": (1, 2)}
+                lo, hi = plain[f.attr]
+                if lo <= len(node.args) <= hi and all(k.arg in ("count", "maxsplit") for k in node.keywords):
+                    self.generic_visit(node)
+                    new = ast.Call(func=ast.copy_location(ast.Attribute(value=ast.copy_location(ast.Name(id="re", ctx=ast.Load()), f), attr=f.attr, ctx=ast.Load()), f),
+                                   args=[ast.copy_location(pat, f.value)] + node.args, keywords=list(node.keywords))
+                    if flags is not None:
+                        new.keywords.append(ast.keyword(arg="flags", value=copy.deepcopy(flags)))
+                    log.append(f"{modname}: {f.value.id}.{f.attr}(..) -> re.{f.attr}(<literal>, ..) at line {node.lineno}")
+                    return ast.copy_location(new, node)
+            return self.generic_visit(node)
+
+        def visit_Name(self, node: ast.Name):
+            if isinstance(node.ctx, ast.Load) and node.id in cands and not isinstance(cands[node.id], ast.Call) and self.shadow and not self.shadowed(node.id):
+                log.append(f"{modname}: constant {node.id} propagated at line {node.lineno}")
+                return ast.copy_location(copy.deepcopy(cands[node.id]), node)
+            return node
+
+    T().visit(tree)
+    if log:
+        ast.fix_missing_locations(tree)
+    return log
+
+
 def inline_extras(trees: Dict[str, ast.Module], root=None) -> List[str]:
     """trees: module name -> parsed module (modified in place).  Returns a log."""
     log: List[str] = []
     for modname, tree in trees.items():
         if modname == "test_factories":
             continue
+        log.extend(propagate_extra_constants(modname, tree))
         inl = Inliner(modname, tree, root)
         # helpers used from other modules are left alone
         ex = inl.extras()
